@@ -550,6 +550,20 @@ def annotations(ret, paths):
 ANNOTATION_NAMES = ("removed", "inserted", "matched_to", "edit_list", "edit")
 
 
+def _has_attr(n, k):
+    try:
+        return hasattr(n, k)
+    except Exception:
+        return False
+
+
+def _get_attr(n, k):
+    try:
+        return getattr(n, k, None)
+    except Exception:
+        return None
+
+
 def fingerprint(node):
     """Structural fingerprint of a tree: class, payload and its Python type, child order, parent-link consistency
     and the option flags - not memo fields such as _total_size."""
@@ -566,14 +580,13 @@ def fingerprint(node):
                 rec.append((flag, n.__dict__[flag]))
         rec.append(("parent_is_container", parent is None or n.parent is parent))
         rec.append(("edited", isinstance(n, gtree.EditedTreeNode)))
-        rec.append(tuple(k for k in ANNOTATION_NAMES if k in getattr(n, "__dict__", {})))
+        rec.append(tuple(k for k in ANNOTATION_NAMES if _has_attr(n, k)))
         if isinstance(n, gtree.EditedTreeNode):
             # an edited tree (the result of an earlier comparison) handed to another comparison: what its
-            # annotations SAY is part of the tree
-            dd = getattr(n, "__dict__", {})
-            rec.append(("annotations", bool(dd.get("removed")), len(dd.get("inserted") or ()),
-                        dd.get("matched_to") is not None, len(dd.get("edit_list") or ()),
-                        type(dd.get("edit")).__name__))
+            # annotations SAY is part of the tree (read through the public attributes, wherever they are stored)
+            rec.append(("annotations", bool(_get_attr(n, "removed")), len(_get_attr(n, "inserted") or ()),
+                        _get_attr(n, "matched_to") is not None, len(_get_attr(n, "edit_list") or ()),
+                        type(_get_attr(n, "edit")).__name__))
         out.append(tuple(rec))
         try:
             kids = list(n.children())
